@@ -26,6 +26,10 @@ type Case struct {
 	// Prelude: connections that come and go before the main one: "reject" (wrong password; the
 	// validator retains database/user/password), "cancel" (CancelRequest), "short" (one query).
 	Prelude []string `json:"prelude,omitempty"`
+	// StmtCap > 0: the application supplies a bounded statement cache; message kind "parse-other"
+	// (statement name "s2") is then parsed by the callback - which retains the text - and refused by
+	// the cache: what the callback holds stays as valid as for an accepted statement.
+	StmtCap int `json:"stmt_cap,omitempty"`
 }
 
 func fill(n int, b byte) []byte {
@@ -50,6 +54,10 @@ func Run(c Case) core.Result {
 	cfg := script.Config{Table: table(), SetLimit: true, Limit: c.Limit, Retain: true, MWs: []script.MW{{}}}
 	if c.Auth {
 		cfg.Auth = &script.AuthSpec{User: "retained-user", Pass: "retained-password"}
+	}
+	if c.StmtCap > 0 {
+		cfg.CustomCaches, cfg.StmtCap = true, c.StmtCap
+		res.Labels = append(res.Labels, "bounded-user-statement-cache")
 	}
 	env := script.Start(cfg)
 	defer env.Stop()
@@ -120,6 +128,8 @@ func Run(c Case) core.Result {
 			b = pgwire.Query(string(fill(m.Size, m.Fill)))
 		case "parse":
 			b = pgwire.Parse("s", string(fill(m.Size, m.Fill)), nil)
+		case "parse-other":
+			b = pgwire.Parse("s2", string(fill(m.Size, m.Fill)), nil)
 		case "bind":
 			b = pgwire.Bind("p", "s", nil, [][]byte{fill(m.Size, m.Fill), fill(3, m.Fill)}, nil)
 		case "execute":
